@@ -202,6 +202,30 @@ Proof.
   - intros Hh. rewrite (linear_extrude_volume c h ph E C1). pose proof (circle_clockwise r segments c Hs Hr Ec). nra.
 Qed.
 
+(* what a cylinder is, in full: the circle of n points on radius r at z = 0 and at z = h, and its signed volume in closed form
+   (six times the volume = 3 h n r^2 sin(360/n), negative under the clockwise-outward convention) *)
+Theorem cylinder_described (r h : R) (segments : Z) ph : cylinder r h segments = Some ph -> r <> 0 ->
+  exists c, circle r segments = Some c /\ length c = Z.to_nat segments /\ (forall p, In p c -> pt2_len2 p = r * r) /\
+    fst ph = map (fun p => Pt3 (x2 p) (y2 p) 0) c ++ map (fun p => Pt3 (x2 p) (y2 p) h) c /\
+    vol6 (fst ph) (snd ph) = - (3 * h * (IZR segments * (r * r) * dsin (360 / IZR segments))).
+Proof.
+  intros E Hr. pose proof E as E0. unfold cylinder in E. destruct (circle r segments) as [c|] eqn:Ec; [|discriminate].
+  assert (Hs : (3 <= segments)%Z).
+  { unfold linear_extrude, triangulate2d in E. destruct (triangulate2d_rev c); [|discriminate]. destruct (Nat.ltb_spec 3 (length c)) as [Hl|]; [|discriminate].
+    unfold circle, arc in Ec. cbn [nleb neqb nofZ nzero NumR] in Ec.
+    destruct (Rleb 360 360) eqn:E1; [|apply Rleb_false in E1; lra]. destruct (Reqb 360 360) eqn:E2; [|apply Reqb_false in E2; lra]. inversion Ec as [Hc]. rewrite <- Hc in Hl.
+    rewrite map_length in Hl. unfold zseq in Hl. rewrite map_length, seq_length in Hl. lia. }
+  destruct (circle_caps_complete r segments c Hs Hr Ec) as [C1 C2].
+  exists c. split; [reflexivity|]. split; [|split; [|split]].
+  - destruct c as [|p0 c']; [unfold linear_extrude, triangulate2d in E; destruct (triangulate2d_rev []); discriminate|].
+    exact (proj1 (circle_on_radius r segments (p0 :: c') 0%nat ltac:(lia) Ec ltac:(cbn; lia))).
+  - intros p Hp. destruct (In_nth c p (Pt2 r 0) Hp) as [i [Hi Hn]]. rewrite <- Hn.
+    exact (proj2 (circle_on_radius r segments c i ltac:(lia) Ec Hi)).
+  - unfold linear_extrude in E. destruct (triangulate2d_rev c); [|discriminate]. destruct (triangulate2d c); [|discriminate].
+    inversion E. reflexivity.
+  - rewrite (linear_extrude_volume c h ph E C1). rewrite (circle_area r segments c ltac:(lia) Ec). ring.
+Qed.
+
 (* the hexagonal heads and nuts of the thread module (and every circumscribed or inscribed prism): the outline is a circle
    of another radius, so the prism is a cylinder; closed and outward with no hypothesis on the caps *)
 Theorem polygon_prism_unconditional (n : Z) (r h : R) pts ph : r <> 0 ->
